@@ -504,8 +504,11 @@ impl<'a> LoweringContext<'a> {
     }
 
     fn finalize_function_body(&mut self) {
+        // A merge/exit block whose id is still pending has been named as a branch
+        // target: it must exist even when nothing follows the control-flow statement.
         if (self.current_stmts.is_empty() && self.current_blocks.is_empty())
             || !self.current_stmts.is_empty()
+            || self.pending_block_id.is_some()
         {
             self.seal_block(AirTerminator::Return(None));
         }
